@@ -237,9 +237,12 @@ def check_purity(s, rule="C02.3"):
         if fn.name in ("render_states", "__init__", "get_obs"):
             ctrl += [h for h in scan_function(P, m, qual, fn, allow_self_assign=True) if h.kind in ("forbidden-callee", "constant-key")]
     names = {h.what.split("(")[0] for h in ctrl}
-    s.control(f"{rule} positive controls matched: {sorted(names)}")
-    if not ({"time.sleep", "datetime.datetime.now"} <= names and any("jr.key" in n or "jax.random.key" in n for n in names)):
-        raise AnalysisError(f"{rule}: positive controls not matched ({sorted(names)}): the effect matcher is not armed")
+    s.control(f"{rule} effects seen in the repository outside the scope (rendering, logging, adapters): {sorted(names)}")
+    from ..effects import control_armed, positive_control
+    armed, cnames = control_armed(positive_control(P))
+    s.control(f"{rule} matcher armed on the fixed sample: {cnames}")
+    if not armed:
+        raise AnalysisError(f"{rule}: positive controls not matched ({cnames}): the effect matcher is not armed")
     # tracer safety: every Python branch in an env method is on static configuration
     classes = env_classes(P) + P.concrete_exported("lerax.wrapper")
     for ci in classes:
